@@ -1,4 +1,5 @@
 import PqModel.ConvertEntry
+import PqModel.ConvertFixed
 import PqModel.Generated.Facts
 
 /-! # C12, third part — the entry points: when is the conversion skipped, and the deprecated
@@ -38,7 +39,7 @@ theorem entry_read_correct (src tgt : PNode) (v : Val)
   split
   · rename_i hg
     exact skip_conversion_sound src tgt v hg hn hc
-  · exact main_convN tgt .req lv0 src v 0 none hsub hwf hc (Nat.le_refl _) rfl rfl
+  · exact convertRow_shred src tgt v hsub hwf hc
 
 /-- non-vacuity: a pure permutation at two depths (guard false, conversion installed) -/
 example :
